@@ -110,7 +110,7 @@ func propDefs() map[string]propDef {
 			[]string{`^ensures:`, `^inv-`, `^pre:`, `^frame:`},
 			nil, []string{`^ensures:(dom|val|frame)`, `^inv-`}, []string{`^ensures:(frame)`})),
 			u("processors/auditd.(*Auditd).Read", `^assert_at:.*cutoff`)),
-		Assume: []string{"EventWriter.Write appends exactly one event or fails without effect (assumed contract)"},
+		Assume:  []string{"EventWriter.Write appends exactly one event or fails without effect (assumed contract)"},
 		Explain: "per-operation whole-view postconditions over the ghost trace out with provenance: an event for an unbound session is appended to the held queue (queue' == queue ++ [e], nothing emitted); for a bound session exactly [render(e)] is emitted; RemoteLogin binding a session emits render(queue) in order (out[N+k].src == queue[k]) and empties the queue; a LOGIN record meeting a parked login emits exactly its own rendering; the invariant 'bound => queue empty' makes these compose, by induction over operations, to 'every event from the LOGIN record to the credential-disposal record emitted exactly once, in processing order'; writeAndClearCache's loop invariant carries the in-order claim for any queue length and the write-failure-at-index-i case",
 	}
 	m["C04"] = propDef{ID: "C04", Level: "proof",
@@ -119,7 +119,7 @@ func propDefs() map[string]propDef {
 			[]string{`^ensures:(nosess|untracked|badpid|held|open|c01|emit)`, `^pre:`},
 			nil, nil,
 			[]string{`^ensures:frame`}, []string{`^ensures:frame`}),
-		Assume: []string{"the kernel's unset session 4294967295 reaches the tracker as the string \"unset\" (auparse, dependency)"},
+		Assume:  []string{"the kernel's unset session 4294967295 reaches the tracker as the string \"unset\" (auparse, dependency)"},
 		Explain: "postconditions that hold after every single operation (hence at every prefix of every history): no session ID / 'unset' => nothing emitted and nothing modified; unknown session and not a LOGIN record => same; known but uncorrelated session => nothing emitted (event held); LOGIN without a parked login => nothing emitted; every emitted event has auditId == the processed event's session and the identity of that session's bound login; cleanup emits nothing",
 	}
 	m["C09"] = propDef{ID: "C09", Level: "proof",
@@ -227,7 +227,7 @@ func propDefs() map[string]propDef {
 			[]string{`^assert_at:`},
 			[]string{`^assert_at:`},
 			all, nil, nil),
-		Assume: []string{"what aucoalesce puts into Result/Summary for a record group (dependency)"},
+		Assume:  []string{"what aucoalesce puts into Result/Summary for a record group (dependency)"},
 		Explain: "postcondition of the real toAuditEvent: type UserAction, component auditd, timestamp == the audit event's, auditId == its session, outcome succeeded iff Result == success, metadata action/how/object from the summary, process_args present iff the event has arguments, subjects a fresh copy equal to the login's (loop invariant of the copy loop), source and target the login's; frame: nothing reachable from the login or the audit event is modified; the same relation is asserted at every EventWriter.Write of the package",
 	}
 	m["C16"] = propDef{ID: "C16", Level: "proof",
@@ -276,5 +276,3 @@ func (w *World) runLemma(lu lemmaUnit, opts solveOpts, thorough bool) ([]*Obliga
 	}
 	return []*Obligation{{Name: "lemma/" + lu.Name, Kind: "subset", Status: "failed", Solver: "structural", Detail: "unknown lemma generator"}}, nil
 }
-
-
